@@ -38,6 +38,9 @@ type mcase struct {
 	// ... as a program that slices one list of targets builds them), the last one with spare capacity:
 	// an append through any of them writes into its neighbour
 	SharedPool bool `json:"shared_pool,omitempty"`
+	// NilPerm: a permutation without entries is handed over as a nil map (what a job without the field,
+	// or with `null`, decodes to) instead of an empty one
+	NilPerm bool `json:"nil_perm,omitempty"`
 }
 
 func truthy(s any) bool {
@@ -218,6 +221,9 @@ func check(c mcase) (nontrivial bool, skipped bool, err error) {
 	for d, v := range c.Perm {
 		perm[d] = v
 	}
+	if c.NilPerm && len(c.Perm) == 0 {
+		perm = nil
+	}
 	var got error
 	func() {
 		defer func() {
@@ -291,6 +297,9 @@ func classes(c mcase) []string {
 	}
 	if c.SharedPool {
 		out = append(out, "value-lists-share-one-backing-array")
+	}
+	if len(c.Perm) == 0 {
+		out = append(out, fmt.Sprintf("no-entries-nil=%v", c.NilPerm))
 	}
 	for _, l := range c.Setup {
 		if len(l) > 16 {
@@ -481,6 +490,11 @@ func genCase(t *rapid.T) mcase {
 	}
 	c.ViaParse = rapid.IntRange(0, 3).Draw(t, "viaparse") == 0
 	c.SharedPool = !c.ViaParse && rapid.IntRange(0, 2).Draw(t, "sharedpool") == 0
+	if rapid.IntRange(0, 11).Draw(t, "noperm") == 0 {
+		// a candidate that names no dimension at all, as an empty or as a nil map
+		c.Perm = map[string]string{}
+	}
+	c.NilPerm = len(c.Perm) == 0 && rapid.Bool().Draw(t, "nilperm")
 	return c
 }
 
@@ -615,6 +629,15 @@ func TestExhaustiveSmallScope(t *testing.T) {
 					nt, _, err := check(c)
 					if err != nil {
 						ev.FailCase(t, c, "%v", err)
+					}
+					if len(p) == 0 {
+						// the candidate without entries, once more as a nil map
+						cn := c
+						cn.NilPerm = true
+						if _, _, err := check(cn); err != nil {
+							ev.FailCase(t, cn, "%v", err)
+						}
+						recEnum.Case(ev.Hash(cn), false, "nil-permutation")
 					}
 					recEnum.Case(ev.Hash(c), nt, fmt.Sprintf("accept=%v", accept(c)), fmt.Sprintf("dims=%d", len(dims)))
 					if nt {
